@@ -141,6 +141,9 @@ def f_amend(version="inp", extra="static", order="amend_first"):
         files["extra.txt"] = "extra\n"
     elif extra == "built":
         root.append(tr("X", [], ["extra.txt"]))
+    elif extra == "optional":
+        # the producer of the amended input is optional: it is needed only while W amends it
+        root.append(tr("X", [], ["extra.txt"], need="OPTIONAL"))
     elif extra == "tree":
         return {
             "plan.py": script([["static", "w.py", "t/"], ["run", "./w.py", {"out": ["w.out"]}]]),
@@ -503,7 +506,7 @@ DOMAINS = {
     "f_subplan": {"sub": (1, 0), "where": ("sub", "root"), "inputs": ("explicit", "tree")},
     "f_glob": {"present": (("a", "b"), ("a",), ("a", "b", "c"), (), ("a", "zz")), "mode": ("tree", "pattern"),
                "subs": ("none", "ab")},
-    "f_amend": {"version": ("inp", "none", "inp_out"), "extra": ("static", "built", "absent"),
+    "f_amend": {"version": ("inp", "none", "inp_out"), "extra": ("static", "built", "absent", "optional"),
                 "order": ("amend_first", "read_first")},
     "f_env": {"how": ("declared", "amended"), "v": (1, 2)},
     "f_vol": {"outdir": ("out/deep", "out2"), "log": ("vol", "out", "none"),
